@@ -35,9 +35,12 @@ Q1Small == SetToSeq({q \in AS \cup {Un(k, a) : k \in 1..4, a \in {T("p"), X("rb"
 \* triples for associativity: atoms, negations, a wildcard, group operators
 Q3Big == Atoms \o <<Not(T("c")), W(1), Desc(T("p")), XAny(T("ra")), Not(T("p"))>>
 Q3Small == Atoms \o <<Not(T("c")), W(1)>>
-CONSTANT Big          \* TRUE: the larger universes
-Q1 == IF Big THEN Q1Big ELSE Q1Small
-Q3 == IF Big THEN Q3Big ELSE Q3Small
+Q1Tiny == Atoms \o <<Not(T("p")), Desc(T("p")), XAny(X("rb")), XOnly(T("ra")), W(1), XOpt(T("ra"), T("c")),
+                       Desc(And(Not(T("p")), Not(T("c"))))>>
+Q3Tiny == Atoms \o <<Not(T("c"))>>
+CONSTANT USize        \* 1, 2, 3: size of the query universes of the law invariants
+Q1 == CASE USize = 1 -> Q1Tiny [] USize = 2 -> Q1Small [] OTHER -> Q1Big
+Q3 == CASE USize = 1 -> Q3Tiny [] USize = 2 -> Q3Small [] OTHER -> Q3Big
 
 OrIff == LawOrIff(tree, Q1)
 AndOnlyIfBoth == LawAndOnlyIfBoth(tree, Q1)
